@@ -1047,10 +1047,18 @@ struct gd_rename_data_ *_GD_PrepareRename(DIRFILE *restrict D,
   }
 
   rdat->flags = flags | ((E->e->n_meta == -1) ? GD_REN_META : 0);
-  if (rdat->flags & GD_REN_META)
-    rdat->fl = &E->e->fl;
-  else
+  if (rdat->flags & GD_REN_META) {
+    /* the list holding this name is the parent's */
+    if (E->e->p.parent)
+      rdat->fl = &E->e->p.parent->e->fl;
+    else
+      rdat->fl = &E->e->fl;
+  } else {
     rdat->fl = &D->fl;
+    /* the subfield lists point into the subfields' old names */
+    E->e->fl.value_list_validity = 0;
+    E->e->fl.entry_list_validity = 0;
+  }
 
   /* resolve field type */
   if (E->field_type == GD_ALIAS_ENTRY && E->e->entry[0])
